@@ -44,6 +44,7 @@ GATES = {
     "invalid-seen": ["verify:ref-invalid"],
     "der-padding-branches": ["der:r-high-bit", "der:r-no-high-bit", "der:short-int"],
     "digest-boundaries": ["digest:z>=n", "digest:z=n", "digest:z=0"],
+    "object-reuse-histories": ["reuse:objects-reused"],
 }
 
 _state = {"tamper": None, "injected": False}
@@ -307,9 +308,42 @@ def der_catalogue(ctx, rng, idx, n):
                         ctx.violation("der-roundtrip", "parse(der(r,s)) != (r,s)", {"op": "der-roundtrip", "r": r, "s": s})
 
 
+def object_reuse_history(ctx, rng):
+    """One key object signs several digests; one Signature object is verified under several keys / digests.
+    Results must not depend on what the objects were used for before; the contracts decide every step."""
+    from buidl.pecc import PrivateKey, Signature
+
+    d = rand_secret(rng)
+    key = PrivateKey(d)
+    zs = [rand_digest(rng), N, 0, rand_digest(rng)]
+    sigs = []
+    _state["tamper"] = "valid"
+    for z in zs + zs[:2]:
+        o = outcome(key.sign, z)
+        if o[0] == "ok":
+            sigs.append((z, o[1]))
+    other = PrivateKey(rand_secret(rng)).point
+    for z, sig in sigs[:3]:
+        parsed = outcome(lambda: Signature.parse(sig.der()))
+        for obj in [sig] + ([parsed[1]] if parsed[0] == "ok" else []):
+            _state["tamper"] = "valid"
+            outcome(key.point.verify, z, obj)
+            _state["tamper"] = "other-key"
+            outcome(other.verify, z, obj)
+            _state["tamper"] = "z+1"
+            outcome(key.point.verify, (z + 1) % 2**256, obj)
+            _state["tamper"] = "valid"
+            outcome(key.point.verify, z, obj)
+    _state["tamper"] = None
+    ctx.count("reuse:objects-reused")
+    ctx.case(("reuse", d, zs))
+
+
 def run_shard(desc, ctx):
     ec.selfcheck()
     install()
+    for _ in range(1 if ctx.tier == "quick" else 6):
+        object_reuse_history(ctx, ctx.rng("reuse", _))
     Injected = _mk_injected_cls()
     idx, n, per = desc["idx"], desc["n"], desc["per"]
     rng = ctx.rng()
